@@ -40,6 +40,20 @@ pub enum ScSpec {
     MinusOne,
     Small(u16),
     Rand(u64),
+    /// 2^k + off (off in -2..=2), optionally negated: powers of two next to every limb and bit boundary
+    Pow { k: u8, off: i8, neg: bool },
+    /// a value of exactly `bits` significant bits (top bit set, the rest from `seed`), optionally negated:
+    /// magnitudes spread evenly over bit lengths instead of "tiny or full-width"
+    BitLen { bits: u8, seed: u64, neg: bool },
+}
+
+fn limbs_scalar(l: [u64; 4], neg: bool) -> Scalar {
+    let v = Scalar::from_raw(l);
+    if neg {
+        -v
+    } else {
+        v
+    }
 }
 
 impl ScSpec {
@@ -50,6 +64,35 @@ impl ScSpec {
             ScSpec::MinusOne => -Scalar::one(),
             ScSpec::Small(v) => Scalar::from(*v as u64),
             ScSpec::Rand(s) => rand_scalar(*s),
+            ScSpec::Pow { k, off, neg } => {
+                let k = (*k % 255) as usize;
+                let mut l = [0u64; 4];
+                l[k / 64] = 1u64 << (k % 64);
+                let p = Scalar::from_raw(l);
+                let o = if *off >= 0 { Scalar::from(*off as u64) } else { -Scalar::from((-(*off as i64)) as u64) };
+                let v = p + o;
+                if *neg {
+                    -v
+                } else {
+                    v
+                }
+            }
+            ScSpec::BitLen { bits, seed, neg } => {
+                let bits = (*bits % 254) as usize + 1; // 1..=254
+                let r = refmath::sha3(&[b"zkverif-bitlen", &seed.to_le_bytes()]);
+                let mut l = [0u64; 4];
+                for i in 0..4 {
+                    l[i] = u64::from_le_bytes(r[8 * i..8 * i + 8].try_into().unwrap());
+                }
+                let top = (bits - 1) / 64;
+                let tb = (bits - 1) % 64;
+                for i in top + 1..4 {
+                    l[i] = 0;
+                }
+                l[top] &= if tb == 63 { u64::MAX } else { (1u64 << (tb + 1)) - 1 };
+                l[top] |= 1u64 << tb;
+                limbs_scalar(l, *neg)
+            }
         }
     }
     pub fn is_edge(&self) -> bool {
@@ -62,6 +105,8 @@ impl ScSpec {
             ScSpec::MinusOne => "q-1",
             ScSpec::Small(_) => "small",
             ScSpec::Rand(_) => "random",
+            ScSpec::Pow { .. } => "pow2-boundary",
+            ScSpec::BitLen { .. } => "bit-length",
         }
     }
 }
@@ -92,7 +137,18 @@ pub fn sc_spec() -> impl Strategy<Value = ScSpec> {
         1 => Just(ScSpec::One),
         1 => Just(ScSpec::MinusOne),
         2 => any::<u16>().prop_map(ScSpec::Small),
-        5 => any::<u64>().prop_map(ScSpec::Rand),
+        4 => any::<u64>().prop_map(ScSpec::Rand),
+        1 => (pow_k(), -2i8..=2, any::<bool>()).prop_map(|(k, off, neg)| ScSpec::Pow { k, off, neg }),
+        2 => (any::<u8>(), any::<u64>(), proptest::bool::weighted(0.2)).prop_map(|(bits, seed, neg)| ScSpec::BitLen { bits, seed, neg }),
+    ]
+}
+
+/// Exponents for `ScSpec::Pow`: half of them on a 64-bit limb boundary (k = 63, 64, 127, 128, 191, 192)
+/// or next to the top of the field (253, 254), the rest anywhere.
+fn pow_k() -> impl Strategy<Value = u8> {
+    prop_oneof![
+        1 => proptest::sample::select(vec![63u8, 64, 127, 128, 191, 192, 253, 254, 31, 32]),
+        1 => 0u8..255,
     ]
 }
 
